@@ -367,12 +367,23 @@ class LedgerC01(Monitor):
                 wterms[i] = [qo, qn]
         return Q_int, Q_byp, wterms
 
+    @staticmethod
+    def _mixed_mean(reg):
+        """harness-side mass-flow weighted mean over all flowing coolant"""
+        m_int, m_byp = mass_flows(reg)
+        num = float(np.dot(m_int, reg.temp['coolant_int']))
+        den = float(np.sum(m_int))
+        if m_byp is not None:
+            num += float(np.sum(m_byp * reg.temp['coolant_byp']))
+            den += float(np.sum(m_byp))
+        return num / den
+
     def on_region_before(self, sim, asm, z, t_gap, h_gap, adiabatic):
-        self._old_avg = float(asm.avg_coolant_temp)
+        self._old_avg = self._mixed_mean(asm.active_region)
         self._old_reg = asm.active_region
 
     def on_region_after(self, sim, asm, z, t_gap, h_gap, adiabatic):
-        new = float(asm.avg_coolant_temp)
+        new = self._mixed_mean(asm.active_region)
         sim.probe('c01.region_change')
         old_nd = self._old_reg.temp['duct_mw'].shape[0]
         new_nd = asm.active_region.temp['duct_mw'].shape[0]
@@ -384,6 +395,7 @@ class LedgerC01(Monitor):
                 if is_rodded(rg):
                     feats.add(tag + '_rodded')
                     feats.add('fs_' + str(rg.corr_names.get('fs')))
+                    feats.add(tag + f'_bypasses_{rg.n_bypass}')
             sim.violate('carry_over.mixed_mean',
                         f'asm{asm.id} z={z}',
                         f'mixed mean {self._old_avg!r} -> {new!r}', feats)
@@ -869,3 +881,347 @@ class PeakC15(Monitor):
                                 f'pin={row[2]!r}; occurred at '
                                 f'{[(float(x[0][1]), float(x[0][2])) for x in ref[2]][:3]}',
                                 {'pin', 'profile'})
+
+
+# ----------------------------------------------------------------------
+# C04 - positivity of the explicit march
+# ----------------------------------------------------------------------
+
+def all_coolant(r, with_gap=True):
+    """Every coolant temperature of the coupled system (flat array)"""
+    parts = []
+    for a in r.assemblies:
+        rg = a.active_region
+        parts.append(rg.temp['coolant_int'].ravel())
+        if 'coolant_byp' in rg.temp:
+            parts.append(rg.temp['coolant_byp'].ravel())
+    if with_gap and r.core.model is not None:
+        parts.append(r.core.coolant_gap_temp.ravel())
+    return np.concatenate(parts)
+
+
+def all_walls(r):
+    return np.concatenate([a.active_region.temp['duct_surf'].ravel()
+                           for a in r.assemblies]
+                          + [a.active_region.temp['duct_mw'].ravel()
+                             for a in r.assemblies])
+
+
+class PositivityC04(Monitor):
+    """Max-principle invariants every tick + perturbation probes at planned
+    ticks (the probe executes the real, unpatched axial_step on two copies
+    of the reactor that differ in one cell)"""
+
+    def __init__(self, spec, probes, zero_power):
+        self.spec = spec
+        self.const = bool(spec.get('const'))
+        self.probes = {int(p['tick']): p for p in probes}
+        self.zero_power = zero_power
+        self.hist = []          # (min, max) hull of the last levels
+        self.tin = None
+        self.pd0 = None
+        self.results = []
+
+    def on_build(self, sim, r):
+        self.tin = float(r.inlet_temp)
+        n = max(len(r.dz), 1)
+        if sim.stop_tick is not None:
+            n = min(n, sim.stop_tick)
+        self.probes = {(t - 1) % n + 1: p for t, p in self.probes.items()}
+
+    # -- invariants ----------------------------------------------------------
+    def on_tick_begin(self, sim, r, z, dz, step):
+        self.pd0 = sum(sum(a._power_delivered.values())
+                       for a in r.assemblies)
+        if step == 1:
+            c = all_coolant(r)
+            w = all_walls(r)
+            self.hist = [(min(c.min(), w.min()), max(c.max(), w.max()))]
+        p = self.probes.get(int(step))
+        if p is not None:
+            self._probe(sim, r, z, dz, step, p)
+
+    def on_gap_after(self, sim, core, dz, t_duct):
+        if core.model not in ('no_flow', 'duct_average'):
+            return
+        r = sim.reactor
+        cu = core._conv_util
+        T = core.coolant_gap_temp
+        lo = np.full(T.shape, np.inf)
+        hi = np.full(T.shape, -np.inf)
+        for k in range(3):
+            td = t_duct[tuple(cu['inds'][k])]
+            if k == 0:
+                m = np.ones(T.shape, dtype=bool)
+            else:
+                m = cu['inds'][k][0] >= 0
+            lo = np.where(m, np.minimum(lo, td), lo)
+            hi = np.where(m, np.maximum(hi, td), hi)
+        if core.model == 'no_flow':
+            old = self.gap_old
+            adj = old[core._sc_adj - 1]
+            m = core._Rcond > 0
+            lo = np.minimum(lo, np.where(m, adj, np.inf).min(axis=1))
+            hi = np.maximum(hi, np.where(m, adj, -np.inf).max(axis=1))
+        tol = 1e-9
+        bad = np.where((T < lo - tol) | (T > hi + tol))[0]
+        sim.probe('c04.gap_hull_checked')
+        if bad.size:
+            j = int(bad[0])
+            sim.violate('positivity.gap_hull', f'tick {sim.tick} gap cell {j}',
+                        f'gap temperature {T[j]!r} outside the hull '
+                        f'[{lo[j]!r}, {hi[j]!r}] of its adjacent duct walls '
+                        f'and neighbouring gap cells', {str(core.model)})
+
+    def on_gap_before(self, sim, core, dz, t_duct):
+        self.gap_old = core.coolant_gap_temp.copy()
+
+    def on_tick_end(self, sim, r, z, dz, step):
+        c = all_coolant(r)
+        w = all_walls(r)
+        tol = 1e-9
+        feats = self._world_feats(r)
+        if not np.all(np.isfinite(c)):
+            sim.violate('positivity.finite', f'tick {step}',
+                        'non-finite coolant temperature', feats)
+            return
+        # nothing below the inlet with non-negative power
+        if c.min() < self.tin - tol:
+            who = self._locate(r, float(c.min()))
+            sim.violate('positivity.below_inlet', f'tick {step} {who[0]}',
+                        f'coolant temperature {c.min()!r} below the inlet '
+                        f'{self.tin!r}', feats | who[1])
+        if self.zero_power and (abs(c - self.tin).max() > tol):
+            who = self._locate(r, float(c[np.argmax(abs(c - self.tin))]))
+            sim.violate('positivity.zero_power', f'tick {step} {who[0]}',
+                        f'without power a temperature moved to '
+                        f'{c[np.argmax(abs(c - self.tin))]!r} '
+                        f'(inlet {self.tin!r})', feats | who[1])
+        # unheated ticks: no new extremum over the closed coupled system
+        pd1 = sum(sum(a._power_delivered.values()) for a in r.assemblies)
+        lo = min(h[0] for h in self.hist[-2:])
+        hi = max(h[1] for h in self.hist[-2:])
+        if pd1 == self.pd0 and not self.zero_power:
+            sim.probe('c04.unheated_tick')
+            if c.max() > hi + tol or c.min() < lo - tol:
+                v = float(c.max()) if c.max() > hi + tol else float(c.min())
+                who = self._locate(r, v)
+                sim.violate('positivity.new_extremum',
+                            f'tick {step} {who[0]}',
+                            f'unheated step produced {v!r} outside the hull '
+                            f'[{lo!r}, {hi!r}] of the previous two levels',
+                            feats | who[1])
+        self.hist.append((min(c.min(), w.min()), max(c.max(), w.max())))
+        self.hist = self.hist[-3:]
+
+    @staticmethod
+    def _world_feats(r):
+        f = set()
+        if r.core.model is not None:
+            f.add('gap_' + str(r.core.model))
+        else:
+            f.add('adiabatic')
+        return f
+
+    @staticmethod
+    def _locate(r, val):
+        for a in r.assemblies:
+            rg = a.active_region
+            for key in ('coolant_int', 'coolant_byp'):
+                if key in rg.temp and np.any(rg.temp[key] == val):
+                    f = LedgerC01._feats(rg, Snap(a))
+                    f.add(key)
+                    return f'asm{a.id} {rg.name} {key}', f
+        if r.core.model is not None and np.any(r.core.coolant_gap_temp == val):
+            return 'gap', {'gap'}
+        return '?', set()
+
+    # -- perturbation probe --------------------------------------------------
+    def _probe(self, sim, r, z, dz, step, p):
+        import pickle
+        try:
+            blob = pickle.dumps(r)
+        except Exception as e:      # not a verdict
+            sim.probe('c04.probe_unpicklable')
+            return
+        rA = pickle.loads(blob)
+        rB = pickle.loads(blob)
+        site = self._choose(rB, p)
+        if site is None:
+            sim.probe('c04.probe_no_site')
+            return
+        kind, ai, arr_getter, idx, label, feats = site
+        delta = 1.0 if self.const else 0.01
+        arr_getter(rB)[idx] += delta
+        reg0 = [a.active_region_idx for a in rA.assemblies]
+        with sim.paused():
+            try:
+                rA.axial_step(z, dz, step)
+                rB.axial_step(z, dz, step)
+            except SystemExit:
+                sim.probe('c04.probe_exit')
+                return
+        if [a.active_region_idx for a in rA.assemblies] != reg0:
+            # a region hand-over re-meshes the state at the end of the step;
+            # cell-wise comparison is meaningless for this tick
+            sim.probe('c04.probe_region_change')
+            return
+        sim.fire('state.perturb')
+        sim.probe('c04.probe.' + kind)
+        cA = all_coolant(rA)
+        cB = all_coolant(rB)
+        diff = (cB - cA) / delta
+        self_w = float((arr_getter(rB)[idx] - arr_getter(rA)[idx]) / delta)
+        tol = 1e-10 if self.const else 2e-2
+        feats = set(feats) | self._world_feats(r)
+        feats.add('const' if self.const else 'tdep')
+        lim = self._limiting(r)
+        if lim == (kind, ai):
+            sim.probe('c04.probe_limiting_cell')
+            feats.add('limiting_cell')
+        rec = {'tick': step, 'site': label, 'self_weight': self_w,
+               'min': float(diff.min()), 'max': float(diff.max())}
+        self.results.append(rec)
+        if self_w < -tol:
+            sim.violate('positivity.self_weight', f'tick {step} {label}',
+                        f'weight of the cell on itself is {self_w!r} < 0 at '
+                        f'the selected step dz={float(dz)!r}',
+                        feats | {'self_weight'})
+        elif diff.min() < -tol:
+            sim.violate('positivity.negative_weight', f'tick {step} {label}',
+                        f'update operator column has entry {diff.min()!r}',
+                        feats)
+        if diff.max() > 1 + tol:
+            sim.violate('positivity.weight_gt_one', f'tick {step} {label}',
+                        f'update operator column has entry {diff.max()!r}',
+                        feats)
+        # conservation of the column where every heat carrier flows
+        if self.const and self._all_flowing(r):
+            mA = self._mcp(rA)
+            lhs = float(np.dot(mA, diff))
+            rhs = float(self._mcp_of(rB, kind, ai, idx))
+            sim.probe('c04.probe_conservation')
+            if abs(lhs - rhs) > 1e-8 * max(abs(rhs), 1e-300) + 1e-9:
+                sim.violate('positivity.column_sum', f'tick {step} {label}',
+                            f'flow-weighted column sum {lhs!r} != own flow '
+                            f'share {rhs!r}', feats | {'conservation'})
+
+    @staticmethod
+    def _limiting(r):
+        i = int(np.argmin(r.min_dz['dz']))
+        if i >= len(r.assemblies):
+            return ('gap', None)
+        code = r.min_dz['sc'][i]
+        if code == 0:
+            return ('node', i)
+        c = str(code)[0]
+        kind = {'1': 'interior', '2': 'edge', '3': 'corner',
+                '6': 'byp_edge', '7': 'byp_corner'}.get(c, '?')
+        return (kind, i)
+
+    @staticmethod
+    def _all_flowing(r):
+        if r.core.model not in (None, 'flow'):
+            return False
+        for a in r.assemblies:
+            rg = a.active_region
+            if stagnant_bypass(rg) or is_sixnode(rg) or \
+                    getattr(rg, '_conv_approx', False):
+                return False
+        return True
+
+    @staticmethod
+    def _mcp(r):
+        parts = []
+        for a in r.assemblies:
+            rg = a.active_region
+            cp = float(rg.coolant.heat_capacity)
+            m_int, m_byp = mass_flows(rg)
+            parts.append(m_int * cp)
+            if 'coolant_byp' in rg.temp:
+                if m_byp is not None:
+                    parts.append((m_byp * cp).ravel())
+                else:
+                    parts.append(np.zeros(rg.temp['coolant_byp'].size))
+        if r.core.model is not None:
+            parts.append(r.core._sc_mfr
+                         * float(r.core.gap_coolant.heat_capacity))
+        return np.concatenate(parts)
+
+    @staticmethod
+    def _mcp_of(r, kind, ai, idx):
+        if kind == 'gap':
+            return r.core._sc_mfr[idx] * float(r.core.gap_coolant.heat_capacity)
+        rg = r.assemblies[ai].active_region
+        cp = float(rg.coolant.heat_capacity)
+        m_int, m_byp = mass_flows(rg)
+        if kind.startswith('byp'):
+            return m_byp[idx] * cp
+        return m_int[idx] * cp
+
+    def _choose(self, r, p):
+        """(kind, asm index, getter, index, label, features)"""
+        want = p.get('kind', 'auto')
+        if want == 'auto':
+            lim = self._limiting(r)
+            want, ai = lim
+        else:
+            ai = p.get('asm', 0) % len(r.assemblies)
+        if want == 'gap':
+            if r.core.model is None:
+                return None
+            n = r.core.coolant_gap_temp.size
+            j = int(p.get('cell', 0)) % n
+            # steer to the cell with the smallest own step limit
+            if p.get('worst', True):
+                j = self._worst_gap_cell(r)
+            return ('gap', None, lambda rr: rr.core.coolant_gap_temp, j,
+                    f'gap cell {j}', {'gap'})
+        a = r.assemblies[ai]
+        rg = a.active_region
+        if not is_rodded(rg):
+            n = rg.temp['coolant_int'].size
+            j = int(p.get('cell', 0)) % n
+            f = LedgerC01._feats(rg, Snap(a))
+            return ('node', ai,
+                    lambda rr: rr.assemblies[ai].active_region.temp['coolant_int'],
+                    j, f'asm{a.id} {rg.name} node {j}', f)
+        sc = rg.subchannel
+        ni = sc.n_sc['coolant']['interior']
+        ne = sc.n_sc['coolant']['edge']
+        nc = sc.n_sc['coolant']['corner']
+        f = LedgerC01._feats(rg, Snap(a))
+        c = int(p.get('cell', 0))
+        if want in ('byp_edge', 'byp_corner') and rg.n_bypass > 0:
+            types = sc.type[ni + ne + nc + sc.n_sc['duct']['total']:
+                            ni + ne + nc + sc.n_sc['duct']['total']
+                            + sc.n_sc['bypass']['total']]
+            cand = np.where(types == (5 if want == 'byp_edge' else 6))[0]
+            if cand.size == 0:
+                return None
+            j = int(cand[c % cand.size])
+            b = int(p.get('bypass', 0)) % rg.n_bypass
+            return (want, ai,
+                    lambda rr: rr.assemblies[ai].active_region.temp['coolant_byp'],
+                    (b, j), f'asm{a.id} bypass{b} cell {j}', f | {want})
+        if want == 'interior':
+            j = c % ni
+        elif want == 'edge':
+            j = ni + c % ne
+        else:
+            want = 'corner'
+            j = ni + ne + c % nc
+        return (want, ai,
+                lambda rr: rr.assemblies[ai].active_region.temp['coolant_int'],
+                j, f'asm{a.id} {rg.name} {want} sc {j}', f | {want})
+
+    @staticmethod
+    def _worst_gap_cell(r):
+        core = r.core
+        if core.model != 'flow':
+            return 0
+        t1 = (core.coolant_gap_params['htc']
+              * np.sum(core._conv_util['const'], axis=1) * core._inv_sc_mfr)
+        t2 = (core.gap_coolant.thermal_conductivity
+              * np.sum(core._Rcond, axis=1) * core._inv_sc_mfr)
+        return int(np.argmax(t1 + t2))
